@@ -1968,3 +1968,25 @@ def ob_poll(ctx, tier):
                 if not (isinstance(ev, Agg) and len(ev.fields) == 2 and ev.fields[1] is tok):
                     c.fail("timer_event_does_not_carry_the_entrys_token", p)
     return c.res(paths, cfg)
+
+
+def ob_timer_stale(ctx, tier):
+    """an expired-timer event that was collected for an EARLIER arming is not accepted by a timer that
+    has been re-armed since (re-registration hands out the same token again, so the token match
+    alone cannot tell the armings apart: the callback path must be guarded by something that
+    identifies the arming -- the wheel counter, or the deadline against the clock)"""
+    c = Chk()
+    f, paths, cfg = run_fn(ctx, r"::process_events\(_1: &mut Timer,")
+    for p in paths:
+        cbs = [e for e in p.trace if is_cb(e)]
+        if not cbs:
+            continue
+        c.witness = True
+        before = p.trace[:cbs[0].idx]
+        guards = [e for e in before if e.kind == "call" and re.search(r"PartialEq>::(ne|eq)$|PartialOrd>::(ge|le|gt|lt)$|Instant::now$|::elapsed$", e.callee)]
+        arming = [e for e in guards if re.search(r"Instant|PartialOrd", e.callee) or re.search(r"<u32 as", e.callee)]
+        # is the registration's counter compared with anything?  (it is only known to the wheel)
+        ctr_cmp = [cnd for cnd in p.pc if any("a1_0_Some_0_2" in str(v) for v in z3util_vars(cnd))]
+        if not arming and not ctr_cmp:
+            c.fail("stale_event_of_previous_arming_accepted", p)
+    return c.res(paths, cfg)
